@@ -2,11 +2,14 @@
 import importlib
 
 MODULES = [
+    "contracts.py_errors",
+    "contracts.py_repro",
     "contracts.py_lexer",
     "contracts.py_types",
     "contracts.lem_call",
     "contracts.lem_time",
     "contracts.lem_guard",
+    "contracts.lem_global",
     "contracts.lem_array",
     "contracts.lem_stmt",
     "contracts.lem_block",
